@@ -459,7 +459,7 @@ snarf_ln(struct loc_s *restrict tgt, const char *buf, size_t bsz)
 	const char *bp;
 	const char *ep;
 	struct lst_s *x;
-	struct loc_s r;
+	struct loc_s r = {NULL, NULL, NULL, NULL};
 
 	/* first one */
 	bp = buf;
